@@ -42,6 +42,44 @@ def fields(raw):
     return out
 
 
+def text_spans(raw):
+    """[(offset, length)] of the text contents of an A-ASSOCIATE-RQ/AC: application context name, abstract and
+    transfer syntax names, and the text-valued user sub-items (52H, 54H-56H uid part, 55H, 58H, 59H)."""
+    try:
+        spec = refpdu.parse_pdu(raw)
+    except refpdu.RefError:
+        return []
+    if spec.get('t') not in (1, 2):
+        return []
+    out = []
+    p = 74
+    for it in spec['items']:
+        ln = struct.unpack('>H', raw[p + 2:p + 4])[0]
+        if it['t'] == 0x10:
+            out.append((p + 4, ln))
+        elif it['t'] in (0x20, 0x21):
+            q = p + 8
+            while q + 4 <= p + 4 + ln:
+                sl = struct.unpack('>H', raw[q + 2:q + 4])[0]
+                out.append((q + 4, sl))
+                q += 4 + sl
+        elif it['t'] == 0x50:
+            q = p + 4
+            while q + 4 <= p + 4 + ln:
+                st_, sl = raw[q], struct.unpack('>H', raw[q + 2:q + 4])[0]
+                if st_ in (0x52, 0x55):
+                    out.append((q + 4, sl))
+                elif st_ in (0x54, 0x56, 0x59):
+                    out.append((q + 6, struct.unpack('>H', raw[q + 4:q + 6])[0]))
+                elif st_ == 0x58:
+                    n1 = struct.unpack('>H', raw[q + 6:q + 8])[0]
+                    out.append((q + 8, n1))
+                    out.append((q + 10 + n1, struct.unpack('>H', raw[q + 8 + n1:q + 10 + n1])[0]))
+                q += 4 + sl
+        p += 4 + ln
+    return [(o, n) for o, n in out if n >= 2 and o + n <= len(raw)]
+
+
 def put(raw, off, width, value):
     value &= (1 << (8 * width)) - 1
     return raw[:off] + value.to_bytes(width, 'big') + raw[off + width:]
@@ -81,6 +119,11 @@ def mutants_of(raw):
     # well-formed multi-byte UTF-8 in text fields (AE titles at 10..41, UIDs further on)
     for pos in sorted({10, 14, 26, 30, 84, 100} & set(range(6, n - 1))):
         out.append(('utf8@%d' % pos, raw[:pos] + b'\xc3\x89' + raw[pos + 2:]))
+    # ... and in every text field the structure has (same number of bytes, one character fewer)
+    for off, ln in text_spans(raw):
+        out.append(('utf8-field@%d' % off, raw[:off] + b'\xc3\x89' + raw[off + 2:]))
+        if ln >= 4:
+            out.append(('utf8-field-end@%d' % off, raw[:off + ln - 3] + b'\xe2\x82\xac' + raw[off + ln:]))
     # non-ASCII / invalid UTF-8 in the body
     for pos in sorted({10, 26, 80, 90, n - 2} & set(range(6, n))):
         out.append(('byte@%d=FF' % pos, raw[:pos] + b'\xff' + raw[pos + 1:]))
@@ -132,10 +175,16 @@ def base_pdus():
             ('abort', refpdu.enc_pdu(c.ABORT_SU)),
             ('rq-rich', refpdu.enc_pdu(dict(c.RQ_SPEC, items=c.RQ_SPEC['items'][:3] + [
                 {'t': 0x50, 'r': 0, 'subs': [{'t': 0x51, 'r': 0, 'max': 16384}, {'t': 0x52, 'r': 0, 'uid': '1.2.3'},
+                                             {'t': 0x53, 'r': 0, 'inv': 3, 'perf': 2},
                                              {'t': 0x54, 'r': 0, 'uid': '1.2.840.10008.1.1', 'scu': 1, 'scp': 1},
                                              {'t': 0x56, 'r': 0, 'uid': '1.2.3.4', 'info': b'\x01\x02'},
                                              {'t': 0x58, 'r': 0, 'type': 2, 'rsp': 1, 'prim': 'user', 'sec': 'pw'},
-                                             {'t': 0x55, 'r': 0, 'name': 'VERSION'}]}])))]
+                                             {'t': 0x55, 'r': 0, 'name': 'VERSION'}]}]))),
+            ('ac-rich', refpdu.enc_pdu(dict(c.AC_SPEC, items=c.AC_SPEC['items'][:3] + [
+                {'t': 0x50, 'r': 0, 'subs': [{'t': 0x51, 'r': 0, 'max': 16384}, {'t': 0x52, 'r': 0, 'uid': '1.2.3'},
+                                             {'t': 0x53, 'r': 0, 'inv': 1, 'perf': 1},
+                                             {'t': 0x59, 'r': 0, 'resp': 'ticket'},
+                                             {'t': 0x55, 'r': 0, 'name': 'PEER_1'}]}])))]
 
 
 def invalid_pdata(frame):
